@@ -364,6 +364,8 @@ cJSON *set_or_call(const struct peer *p, const cJSON *request, enum type what)
 	if (unlikely(e->peer->send_message(e->peer, rendered_message,
 	                                   strlen(rendered_message)) != 0)) {
 		response = create_error_response_from_request(p, request, INTERNAL_ERROR, "reason", "could not send routing information");
+		/* The request is answered now: it must not be answered again when its timer expires. */
+		cancel_routing_request(routing_request);
 	}
 
 	cjet_free(rendered_message);
